@@ -176,3 +176,6 @@ class Cov(np.ndarray):
         if orb.cov is not None:
             del orb.cov
         self._data["orb"] = orb
+        # every conversion is routed through the frame the reference state is
+        # expressed in (sv.cov = cov re-seats the state, possibly in an other frame)
+        self._orb_frame = orb.frame
